@@ -7,9 +7,27 @@ Import ListNotations.
 
 (* ---- escapes ---------------------------------------------------------------- *)
 
-(* special to lex: the character after the backslash starts a lex escape literal
-   (`\x4`, `\u0`, `\U0`, a digit, a f n r t v \, p P, d D s S w W, A z) *)
-Definition lex_special (c : N) (rest : text) : bool := lex_esc_literal (c :: rest).
+(* The escapes `\c…` (c not a punctuation character) to which the regex engine gives a meaning of
+   its own — the list of regex-syntax's escape parser, the ones lex shares with it included; after
+   any other character a backslash is not an escape of the engine.  [rest] is the text behind c.
+     - hexadecimal: `\x` `\u` `\U` followed by a hexadecimal digit (`\x41`, `\u00e9`, `\U0001F600`)
+       or by an opening brace (`\x{41}`, `\u{e9}`, `\U{1F600}`);
+     - a digit: octal escape (back reference: refused by the engine);
+     - the C escapes `\a \f \n \r \t \v`;
+     - Unicode classes `\p \P`, Perl classes `\d \D \s \S \w \W`;
+     - the assertions `\A \z \B` (`\b`, which lex reads as backspace, is treated apart in [esc_image]). *)
+Definition rx_escape_class (c : N) (rest : text) : bool :=
+  (mem c [120; 117; 85]%N                                   (* x u U *)
+   && match rest with d :: _ => is_xdigit d || (d =? 123)%N | [] => false end)
+  || is_digit c
+  || mem c [97; 102; 110; 114; 116; 118]%N                  (* a f n r t v *)
+  || (c =? c_bsl)%N
+  || mem c [112; 80]%N                                      (* p P *)
+  || mem c [100; 68; 115; 83; 119; 87]%N                    (* d D s S w W *)
+  || mem c [65; 122; 66]%N.                                 (* A z B *)
+
+(* special to lex / kept for the engine: `\c` followed by [rest] is one of the escapes above *)
+Definition lex_special (c : N) (rest : text) : bool := rx_escape_class c rest.
 
 (* special to the regex engine UNDER THE FLAGS IN FORCE: a meta character, or — when
    ignore_whitespace is on — a character the engine skips in that mode (White_Space; `#`,
@@ -53,8 +71,12 @@ Fixpoint dangling (re : text) : bool :=
       else dangling re1
   end.
 
-(* the code as first read (and today's, when ignore_whitespace is off), on every text that does
-   not end in a lone backslash *)
+(* the table of the code (RE_LEX_ESC_LITERAL as it is now) is the list above *)
+Definition esc_table_spec_stmt : Prop :=
+  lex_esc_literal [] = false /\ forall c rest, lex_esc_literal (c :: rest) = rx_escape_class c rest.
+
+(* the scanner without the lone-backslash and white-space repairs (when ignore_whitespace is off: today's
+   behaviour), on every text that does not end in a lone backslash *)
 Definition unescape_spec_stmt : Prop :=
   forall pe re, dangling re = false -> unescape re pe = Done (map_escapes false pe re).
 
@@ -69,13 +91,41 @@ Definition unescape_iw_spec_stmt : Prop :=
 
 (* the scanner never panics, whatever the text, the flags and the repairs *)
 Definition unescape_total_stmt : Prop :=
-  forall fixd kw pe re, exists r, unescape_gen fixd kw re pe = Done r.
+  forall et fixd kw pe re, exists r, unescape_sel et fixd kw re pe = Done r.
+
+(* the table before the repair lacked `\B` and the braced forms: the escapes of the auditors' rules
+   `a\Bb`, `\x{41}`, `\u{e9}`, `\U{1F600}`, `[\x{41}-\x{43}]+` are escapes of the engine, the old table
+   did not keep them, and the scanner over it (all other repairs in) rewrote
+   `a\Bb` to `aBb` and `\x{41}` to `x{41}` (the letter x forty-one times) *)
+Definition esc_table_orig_refuted_stmt : Prop :=
+  (rx_escape_class 66%N [98%N] = true /\ lex_esc_literal_orig [66%N; 98%N] = false) /\
+  (forall c, mem c [120; 117; 85]%N = true -> forall rest,
+     rx_escape_class c (123%N :: rest) = true /\ lex_esc_literal_orig (c :: 123%N :: rest) = false) /\
+  (exists pe re r, dangling re = false /\ unescape_gen_orig true false re pe = Done r /\
+     r <> map_escapes false pe re /\ re = [97; 92; 66; 98]%N /\ r = [97; 66; 98]%N) /\
+  (exists pe re r, dangling re = false /\ unescape_gen_orig true false re pe = Done r /\
+     r <> map_escapes false pe re /\ re = [92; 120; 123; 52; 49; 125]%N /\ r = [120; 123; 52; 49; 125]%N) /\
+  (exists pe re r, dangling re = false /\ unescape_gen_orig true false re pe = Done r /\
+     r <> map_escapes false pe re /\
+     re = [91; 92; 120; 123; 52; 49; 125; 45; 92; 120; 123; 52; 51; 125; 93; 43]%N /\
+     r = [91; 120; 123; 52; 49; 125; 45; 120; 123; 52; 51; 125; 93; 43]%N).
+
+(* the same seen from the entry point: `%%\na\Bb 'T'\n` yields the rule T with regex `aBb` before the
+   repair, `a\Bb` (= what [map_escapes] says) now *)
+Definition esc_witness_src : text := [37; 37; 10; 97; 92; 66; 98; 32; 39; 84; 39; 10]%N.
+Definition lex_esc_refuted_stmt : Prop :=
+  exists st st',
+    lex_from_str audited esc_witness_src 0 false false false [] = Done (POk st) /\
+    map r_re_str (rules st) = [[97; 66; 98]%N] /\
+    lex_from_str repaired esc_witness_src 0 false false false [] = Done (POk st') /\
+    map r_re_str (rules st') = [[97; 92; 66; 98]%N] /\
+    map r_re_str (rules st') = [map_escapes false false [97; 92; 66; 98]%N].
 
 (* the code as first read loses text when the regex ends in a lone backslash after an escape that was rewritten *)
 Definition unescape_dangling_refuted_stmt : Prop :=
   exists pe re, dangling re = true /\ exists r, unescape re pe = Done r /\ r <> map_escapes false pe re.
 
-(* today's code (lone-backslash repair in, white-space repair not) under ignore_whitespace:
+(* the code before the white-space repair (lone-backslash repair in) under ignore_whitespace:
    `a\ b` is rewritten to `a b`, in which the engine skips the blank *)
 Definition unescape_iw_refuted_stmt : Prop :=
   exists pe re, dangling re = false /\
@@ -108,32 +158,97 @@ Definition esc_image_cases_stmt : Prop :=
                (t = [c] \/ forallb (fun d => negb (is_rx_ws d)) t = true)) /\
   (forall pe c rest, esc_image false pe c rest =
      if (c =? c_b)%N then (if pe then [92; 120; 48; 56]%N else [92; 98]%N)
-     else if is_meta_character c || lex_esc_literal (c :: rest) then [c_bsl; c] else [c]).
+     else if is_meta_character c || rx_escape_class c rest then [c_bsl; c] else [c]).
 
 (* with the flag off the white-space repair changes nothing: the parser with and without it
    (whatever the other repairs) returns the same result on every text *)
 Definition with_iw (b : bool) (fx : fixes) : fixes :=
   {| fix_header := fix_header fx; fix_target_span := fix_target_span fx;
-     fix_prefix_unescape := fix_prefix_unescape fx; fix_dangling := fix_dangling fx; fix_iw := b |}.
+     fix_prefix_unescape := fix_prefix_unescape fx; fix_dangling := fix_dangling fx; fix_iw := b;
+     fix_esc_table := fix_esc_table fx; fix_decl_blanks := fix_decl_blanks fx;
+     fix_trim_blank := fix_trim_blank fx |}.
 Definition iw_off_irrelevant_stmt : Prop :=
   forall fx b src pos awc pe re_bad,
     lex_from_str (with_iw b fx) src pos awc pe false re_bad = lex_from_str fx src pos awc pe false re_bad.
 
 (* ---- trailing white space ------------------------------------------------------ *)
 
-(* trailing Pattern_White_Space is removed, except that the first removed
-   character is put back when an odd number of backslashes precedes it *)
-Definition trim_end_unescaped_ref (s : text) : text :=
-  let t := trim_end is_ws s in
+(* trailing blanks — space and tab, the characters that separate a regex from its name — are removed,
+   except that the first removed character is put back when an odd number of backslashes precedes it *)
+Definition trim_end_unescaped_ref_gen (f : N -> bool) (s : text) : text :=
+  let t := trim_end f s in
   if Nat.odd (count_trailing_bsl t) then t ++ firstn 1 (skipn (length t) s) else t.
+Definition trim_end_unescaped_ref : text -> text := trim_end_unescaped_ref_gen is_space_sep.
 
 Definition trim_end_unescaped_spec_stmt : Prop :=
   forall s, trim_end_unescaped s = Done (trim_end_unescaped_ref s).
 
-(* what [trim_end is_ws] is: the split of s into a part not ending in white space and white space *)
+(* what [trim_end is_space_sep] is: the split of s into a part not ending in a blank and blanks —
+   nothing but spaces and tabs is ever removed from the end of a regex *)
 Definition trim_end_split_stmt : Prop :=
-  forall s, exists w, s = trim_end is_ws s ++ w /\ forallb is_ws w = true /\
-    (forall c, ends_with_char c (trim_end is_ws s) = true -> is_ws c = false).
+  forall s, exists w, s = trim_end is_space_sep s ++ w /\ forallb is_space_sep w = true /\
+    (forall c, ends_with_char c (trim_end is_space_sep s) = true -> is_space_sep c = false).
+
+(* hence: a regex that ends in a character other than space, tab and backslash is left alone *)
+Definition trim_end_keeps_stmt : Prop :=
+  forall s c, is_space_sep c = false -> trim_end_unescaped (s ++ [c]) = Done (s ++ [c]).
+
+(* before the repair every Pattern_White_Space character was removed: the auditor's `a<FF>` and
+   `x<LRM>` lost their last character (and so did NEL and RLM), which the repaired function keeps *)
+Definition trim_orig_refuted_stmt : Prop :=
+  (forall c, mem c [12; 133; 8206; 8207]%N = true ->
+     trim_end_unescaped_orig [97; c]%N = Done [97]%N /\ trim_end_unescaped [97; c]%N = Done [97; c]%N) /\
+  trim_end_unescaped_orig [120; 8206]%N = Done [120]%N.
+
+(* the same seen from the entry point: `%%\na<FF> 'T'\n` *)
+Definition trim_witness_src : text := [37; 37; 10; 97; 12; 32; 39; 84; 39; 10]%N.
+Definition lex_trim_refuted_stmt : Prop :=
+  exists st st',
+    lex_from_str audited trim_witness_src 0 false false false [] = Done (POk st) /\
+    map r_re_str (rules st) = [[97]%N] /\
+    lex_from_str repaired trim_witness_src 0 false false false [] = Done (POk st') /\
+    map r_re_str (rules st') = [[97; 12]%N].
+
+(* ---- start-state declarations ---------------------------------------------------- *)
+
+(* `%s A  B\n%%\n<A,B>a 'a'\n` (two blanks between the names): rejected before the repair with
+   InvalidStartStateName at the second blank (5,5); now the states A (3,4) and B (6,7), inclusive,
+   and the rule restricted to both.  `%x C \t D\n%%\n<C,D>b 'b'\n` likewise (exclusive) *)
+Definition decl_witness_src : text :=
+  [37; 115; 32; 65; 32; 32; 66; 10; 37; 37; 10; 60; 65; 44; 66; 62; 97; 32; 39; 97; 39; 10]%N.
+Definition decl_witness_src2 : text :=
+  [37; 120; 32; 67; 32; 9; 32; 68; 10; 37; 37; 10; 60; 67; 44; 68; 62; 98; 32; 39; 98; 39; 10]%N.
+Definition decl_blanks_refuted_stmt : Prop :=
+  lex_from_str audited decl_witness_src 0 false false false [] =
+    Done (PErrs [{| e_kind := InvalidStartStateName; e_spans := [(5, 5)] |}]) /\
+  (exists e, lex_from_str audited decl_witness_src2 0 false false false [] = Done (PErrs [e]) /\
+             e_kind e = InvalidStartStateName) /\
+  (exists st, lex_from_str repaired decl_witness_src 0 false false false [] = Done (POk st) /\
+     map (fun s => (ss_name s, ss_span s, ss_exclusive s)) (start_states st) =
+       [([73; 78; 73; 84; 73; 65; 76]%N, (0, 0), false); ([65]%N, (3, 4), false); ([66]%N, (6, 7), false)] /\
+     map r_start_states (rules st) = [[1; 2]]) /\
+  (exists st, lex_from_str repaired decl_witness_src2 0 false false false [] = Done (POk st) /\
+     map (fun s => (ss_name s, ss_span s, ss_exclusive s)) (start_states st) =
+       [([73; 78; 73; 84; 73; 65; 76]%N, (0, 0), false); ([67]%N, (3, 4), true); ([68]%N, (7, 8), true)]).
+
+(* what the names of a declaration are, stated without the splitter: the maximal runs of
+   non-white-space characters of the parameter text, in order, each with the place where it stands *)
+Fixpoint runs_go (s : text) (off start : nat) (cur : text) : list (nat * text) :=
+  match s with
+  | [] => match cur with [] => [] | _ => [(start, rev cur)] end
+  | c :: s' =>
+      if is_ws c
+      then match cur with
+           | [] => runs_go s' (off + len_utf8 c) (off + len_utf8 c) []
+           | _ => (start, rev cur) :: runs_go s' (off + len_utf8 c) (off + len_utf8 c) []
+           end
+      else runs_go s' (off + len_utf8 c) start (c :: cur)
+  end.
+Definition runs (s : text) : list (nat * text) := runs_go s 0 0 [].
+Definition declared_names_spec_stmt : Prop :=
+  forall base params,
+    declared_names true base params =
+    map (fun p => (snd p, (base + fst p, base + fst p + byte_len (snd p)))) (runs params).
 
 (* ---- spans --------------------------------------------------------------------- *)
 
@@ -164,8 +279,7 @@ Definition spans_index_source_refuted_stmt : Prop :=
 (* and, independently of any header, not next to a target state *)
 Definition target_span_refuted_stmt : Prop :=
   exists src awc pe iw st,
-    lex_from_str {| fix_header := true; fix_target_span := false; fix_prefix_unescape := false; fix_dangling := false;
-                    fix_iw := false |}
+    lex_from_str (mk_fixes true false false false false false false false)
                  src 0 awc pe iw [] = Done (POk st) /\ ~ names_indexed src st.
 
 (* ---- totality -------------------------------------------------------------------- *)
